@@ -35,7 +35,8 @@ QUICK_RUNS = 6000
 THOROUGH_RUNS = 400_000
 EXPECT_PROBES = ["too_old_rejected", "jump_beyond_capacity", "out_of_order_in_window", "missing_value_update", "overwrite",
                  "half_period_jitter", "unaligned_datetime_query", "query_closer_than_one_period", "dump_load_roundtrip",
-                 "wrapped_window", "moving_window_variant", "gap_split", "query_with_hole_inside"]
+                 "wrapped_window", "moving_window_variant", "gap_split", "query_with_hole_inside",
+                 "valid_slot_overwritten_by_missing", "missing_bridges_two_gaps", "dump_load_of_empty_buffer"]
 
 MISSING = None
 
@@ -246,8 +247,8 @@ def _gen_history(sim: Sim, m: Model, n: int) -> list[tuple[datetime, float | Non
     val = 0.0
     for _ in range(n):
         val += 1.0
-        k = ch.weighted("transport", [10, 2, 2, 2, 1, 2, 1, 1])
-        kind = ["ok", "drop", "dup", "reorder", "jump", "missing", "old", "hold"][k]
+        k = ch.weighted("transport", [10, 2, 2, 2, 1, 2, 1, 1, 2])
+        kind = ["ok", "drop", "dup", "reorder", "jump", "missing", "old", "hold", "missing_old"][k]
         slot = cur
         if kind == "drop":
             cur += 1 + ch.draw("drop_n", 3)
@@ -259,6 +260,9 @@ def _gen_history(sim: Sim, m: Model, n: int) -> list[tuple[datetime, float | Non
         elif kind == "jump":
             cur += m.cap + ch.int_between("jump_extra", 0, 2 * m.cap)
             slot = cur
+        elif kind == "missing_old":
+            # a None/NaN for a slot that was already written (overwrites a valid value inside the window)
+            slot = cur - 1 - ch.draw("missing_back", max(1, m.cap))
         elif kind == "old":
             slot = cur - m.cap - ch.int_between("old_extra", 0, 3)
         elif kind == "hold":
@@ -276,7 +280,7 @@ def _gen_history(sim: Sim, m: Model, n: int) -> list[tuple[datetime, float | Non
             off = ch.choice("jitter_edge", [1, -1])
         ts = m.ts(slot) + timedelta(microseconds=off)
         v: float | None = val
-        if kind == "missing":
+        if kind in ("missing", "missing_old"):
             v = [None, math.nan][ch.draw("missing_kind", 2)]
         out.append((ts, v, kind))
         if kind in ("ok", "missing"):
@@ -307,6 +311,16 @@ def scenario_buffer(sim: Sim) -> None:
     sim.config.update(cap=cap, period_us=period_us, container=sig["container"], align_off=str(align))
     sim.note(f"buffer cap={cap} period={period_us}us container={sig['container']} align={align}")
     hist = _gen_history(sim, m, ch.int_between("nupdates", 10, sim.scale(60, 150)))
+    if ch.chance("dump_load_before_first_update", 0.05):
+        # a buffer persisted before it ever received a sample must behave like a new one after loading
+        sim.probe("dump_load_of_empty_buffer")
+        path = os.path.join(tempfile.gettempdir(), f"verif-c09-{os.getpid()}.pkl")
+        try:
+            dump(buf, path)
+            buf = load(path)
+        finally:
+            if os.path.exists(path):
+                os.remove(path)
     for ts, v, kind in hist:
         s = m.slot(ts)
         if kind not in ("ok",) or ts != m.ts(s):
@@ -333,6 +347,10 @@ def scenario_buffer(sim: Sim) -> None:
                 sim.probe("overwrite")
             if vv is None:
                 sim.probe("missing_value_update")
+                if had is not None:
+                    sim.probe("valid_slot_overwritten_by_missing")
+                    if m.get(s - 1) is None and m.get(s + 1) is None and m.lo() < s < (m.newest or s):
+                        sim.probe("missing_bridges_two_gaps")
             if in_window_before and had is None and vv is not None and m.get(s - 1) is None and m.get(s + 1) is None \
                     and m.lo() < s < (m.newest or s):
                 sim.probe("gap_split")
